@@ -634,7 +634,7 @@ def r12_5(ctx: Ctx, rep: Report) -> None:  # noqa: C901
     from .normalise import normalised as _nrm
 
     for q in ("AddrGroup.line.setter", "AddrGroup.items.setter"):
-        f = _nrm(ctx, ctx.func(q), "gencalls")  # a member loop moved into a generator that is drained by list()
+        f = _nrm(ctx, ctx.func(q), "valuecalls,gencalls")  # a member loop moved into a helper that returns the list, or into a generator drained by list()
         cfg = ctx.cfg(f)
         loops = [n for n in cfg.live if n.kind == "for"]
         if not loops and _members_through_helper(ctx, rep, f, q):
@@ -693,7 +693,7 @@ def r12_5(ctx: Ctx, rep: Report) -> None:  # noqa: C901
         if npaths == 0:
             rep.note(f"R12.5 {q}: every path through the member loop appends or raises")
     # empty result raises (line form)
-    f = ctx.func("AddrGroup.line.setter")
+    f = _nrm(ctx, ctx.func("AddrGroup.line.setter"), "valuecalls,gencalls")
     rep.instance()
     cfg = ctx.cfg(f)
     acc = _accumulator(f)
